@@ -74,6 +74,9 @@ func (c *checkCtx) tryReplay(fr *funcResult, o *sym.Outcome) *replayRun {
 		r, ok = replayers[key]
 	}
 	if !ok {
+		r, ok = replayers[c.prop.ID+"|*"]
+	}
+	if !ok {
 		return &replayRun{Kind: "none", Verdict: "not-run", Output: "no replay template for " + key}
 	}
 	return runReplayer(r, o)
